@@ -597,18 +597,54 @@ fn sql_value(rt: &tokio::runtime::Runtime, optimize: bool, sql: &str) -> String 
     }
 }
 
+/// `(fc <T> <operand|-> (whens (c r)*) <else|->)`: a searched / simple CASE. The SQL TEXT carries the
+/// WHEN branches in source order and goes through the binder (optimizer on / off); the folded constant
+/// and the direct evaluation use the desugaring "first WHEN outermost" built HERE (not by the binder),
+/// with NULLs of the result type for an untyped NULL result / a missing ELSE (the binder's implicit cast).
+fn run_case(rt: &tokio::runtime::Runtime, l: &[Sexp]) -> String {
+    let ty = l[1].as_atom().unwrap();
+    let op = &l[2];
+    let whens = &l[3].as_list().unwrap()[1..];
+    let el = &l[4];
+    let is = |x: &Sexp, a: &str| x.as_atom() == Some(a);
+    let typed_null = format!("(cast {ty} null)");
+    let res = |r: &Sexp| if is(r, "null") || is(r, "-") { typed_null.clone() } else { r.to_string() };
+    let mut desugared = res(el);
+    for w in whens.iter().rev() {
+        let w = w.as_list().unwrap();
+        let cond = if is(op, "-") { w[0].to_string() } else { format!("(= {op} {})", w[0]) };
+        desugared = format!("(if {cond} {} {desugared})", res(&w[1]));
+    }
+    let sql = (|| {
+        let mut q = String::from("select case");
+        if !is(op, "-") {
+            q += &format!(" {}", sql_of(op)?);
+        }
+        for w in whens {
+            let w = w.as_list()?;
+            q += &format!(" when {} then {}", sql_of(&w[0])?, sql_of(&w[1])?);
+        }
+        if !is(el, "-") {
+            q += &format!(" else {}", sql_of(el)?);
+        }
+        Some(q + " end")
+    })();
+    run_fold_sql(rt, &Sexp::parse(&desugared).expect("desugared case"), sql)
+}
+
 fn run_fold(rt: &tokio::runtime::Runtime, e: &Sexp) -> String {
+    run_fold_sql(rt, e, sql_of(e).map(|sql| format!("select {sql}")))
+}
+
+fn run_fold_sql(rt: &tokio::runtime::Runtime, e: &Sexp, sql: Option<String>) -> String {
     let fold = fold_real(e);
     let rtv = match catch(|| eval_direct(e, &[], 1)) {
         Err(_) => "panic".to_string(),
         Ok(Err(_)) => "err".to_string(),
         Ok(Ok(a)) => format!("ok {}", show_value(&a.get(0))),
     };
-    let (o, n) = match sql_of(e) {
-        Some(sql) => {
-            let q = format!("select {sql}");
-            (sql_value(rt, true, &q), sql_value(rt, false, &q))
-        }
+    let (o, n) = match sql {
+        Some(q) => (sql_value(rt, true, &q), sql_value(rt, false, &q)),
         None => ("-".to_string(), "-".to_string()),
     };
     format!("fold={fold} ;; rt={rtv} ;; sqlopt={o} ;; sqlnoopt={n}")
@@ -767,8 +803,51 @@ impl Gen {
     }
 }
 
+/// A searched or simple CASE with 2–4 WHEN branches whose conditions OVERLAP (several TRUE ones), with
+/// FALSE and NULL conditions among them, NULL results, and with or without ELSE.
+fn gen_case(g: &mut Gen) -> String {
+    let r = &mut g.r;
+    let (ty, vals): (&str, Vec<String>) = match r.below(4) {
+        0 => ("STRING", ["a", "b", "c", "d", "e"].iter().map(|s| format!("s:{}", hex(s.as_bytes()))).collect()),
+        1 => ("BIGINT", (1..=5).map(|i| format!("i64:{}", i * 1000000007i64)).collect()),
+        2 => ("BOOLEAN", vec!["b:true".into(), "b:false".into(), "b:true".into(), "b:false".into(), "b:true".into()]),
+        _ => ("INT", (1..=5).map(|i| format!("i32:{i}")).collect()),
+    };
+    let n = 2 + r.below(3) as usize;
+    // distinct results per branch (so that the branch taken is visible), sometimes NULL
+    let results: Vec<String> = (0..n).map(|i| if r.chance(1, 7) { "null".to_string() } else { vals[i].clone() }).collect();
+    let el = if r.chance(1, 3) { "-".to_string() } else if r.chance(1, 6) { "null".to_string() } else { vals[4].clone() };
+    if r.chance(1, 3) {
+        // simple CASE: `CASE x WHEN v …` with repeated / NULL values
+        let x = r.range(1, 3);
+        let ws: Vec<String> = results.iter().map(|res| {
+            let v = if r.chance(1, 8) { "null".to_string() } else if r.chance(1, 2) { format!("i32:{x}") } else { format!("i32:{}", r.range(1, 3)) };
+            format!("({v} {res})")
+        }).collect();
+        let op = if r.chance(1, 10) { "null".to_string() } else { format!("i32:{x}") };
+        return format!("(fc {ty} {op} (whens {}) {el})", ws.join(" "));
+    }
+    // searched CASE: thresholds below / above one value a, TRUE / FALSE / NULL conditions mixed
+    let a = r.range(-2, 12);
+    let ws: Vec<String> = results.iter().map(|res| {
+        let c = match r.below(8) {
+            0 => "(cast BOOLEAN null)".to_string(),
+            1 => format!("(> i32:{a} null)"),
+            2 => "b:true".to_string(),
+            3 => "b:false".to_string(),
+            4 => format!("(<= i32:{a} i32:{})", r.range(-2, 12)),
+            _ => format!("(> i32:{a} i32:{})", r.range(-4, 12)),
+        };
+        format!("({c} {res})")
+    }).collect();
+    format!("(fc {ty} - (whens {}) {el})", ws.join(" "))
+}
+
 fn gen_request(g: &mut Gen) -> String {
     g.boundary = g.r.chance(3, 10);
+    if g.r.chance(1, 16) {
+        return gen_case(g);
+    }
     if g.r.chance(1, 8) {
         // constant expression: folding vs run time, optimizer on vs off
         let ty = *g.r.pick(&["i32", "i64", "bool", "bool", "str", "i16", "i32"]);
@@ -882,6 +961,10 @@ fn main() {
                 let kind = l[0].as_atom().unwrap();
                 if kind == "f" {
                     println!("{}", run_fold(&rt, &l[1]));
+                    continue;
+                }
+                if kind == "fc" {
+                    println!("{}", run_case(&rt, l));
                     continue;
                 }
                 // `ks` / `el`: as `k` / `e`, on arrays obtained by `slice(off..off+n)` / below LIMIT OFFSET
